@@ -149,8 +149,32 @@ def expansion_case(rnd, rules):
     o1, o2, o3 = own(), own(), own()
     dicts = [dict(name=n, exp=x) for n, x in rules]
     ref = list(rules)
-    shape = rnd.choice(['based', 'chain', 'chain3', 'include', 'include-of-based', 'based-on-including'])
+    shape = rnd.choice(['based', 'chain', 'chain3', 'include', 'include-of-based', 'based-on-including',
+                        'override', 'override-then-based', 'override-then-include', 'override-twice'])
     top = 'xb1'
+    if shape.startswith('override'):
+        # docs/syntax.rst "Rule Overrides": a rule may be redefined with @override; the redefinition is the rule from then on (for the
+        # calls written before it too: calls go by name).  What is based on / includes the rule AFTER the redefinition sees the new body.
+        names = [n for n, _ in rules]
+        i = names.index(base_name)
+        cfg = gen.GenCfg()
+        new_exp = gen.gen_exp(rnd, cfg, rnd.randint(1, cfg.depth), names[i + 1:], names)
+        dicts.append(dict(name=base_name, exp=new_exp, decorators=['override']))
+        if shape == 'override-twice':
+            new_exp = gen.gen_exp(rnd, cfg, rnd.randint(1, cfg.depth), names[i + 1:], names)
+            dicts.append(dict(name=base_name, exp=new_exp, decorators=['override']))
+        ref[i] = (base_name, new_exp)
+        base_exp = new_exp
+        top = rnd.choice(names[:i + 1])     # the redefined rule itself or a rule that may call it
+        if shape == 'override-then-based':
+            dicts.append(dict(name='xb1', exp=o1, base=base_name))
+            ref.append(('xb1', seq(base_exp, o1)))
+            top = 'xb1'
+        if shape == 'override-then-include':
+            dicts.append(dict(name='xi', exp=seq(o1, ('inc', base_name), o2)))
+            ref.append(('xi', seq(o1, base_exp, o2)))
+            top = 'xi'
+        return dicts, ref, top, shape
     if shape in ('based', 'chain', 'chain3', 'include-of-based'):
         dicts.append(dict(name='xb1', exp=o1, base=base_name))
         ref.append(('xb1', seq(base_exp, o1)))
@@ -268,7 +292,7 @@ def _flat(x):
 def _f_c01_a(case, detail):
     """an AST difference that disappears when nested lists are flattened, on a grammar in which a rule
     with an override (@: / @+:) is called from another rule"""
-    if detail.get('bucket') not in ('ast', 'enum-ast') or case.get('kind') not in ('ref', 'enum'):
+    if detail.get('bucket') not in ('ast', 'enum-ast', 'expansion:ast') or case.get('kind') not in ('ref', 'enum', 'expand'):
         return False
     from vf.gast import calls_in
     rules = [(n, tup(x)) for n, x in case['rules']]
